@@ -225,6 +225,26 @@ def run(idx, rep, tier):
                 rep.decide(not missing, "slice-buffers", f"Sliced.{m.name}:dtype", f"scatter buffer is typed by {sorted(bs)}, the scattered operand by {sorted(vs)}" +
                            ("" if not missing else ": a complex operand multiplied into a slice of a real operator silently loses its imaginary part"),
                            detail="" if not missing else "narrow", locs=[idx.loc(m.module, z)])
+    # ---- 3a. every __getitem__ (base class and overrides): two integer indices bound by a pattern are never compared raw --
+    # i and j name the same position also when one is negative (D[-1, n-1]), so `i == j` is not "on the diagonal"
+    n_getitem = 0
+    for ci in idx.operator_classes():
+        g = ci.methods.get("__getitem__")
+        if g is None:
+            continue
+        n_getitem += 1
+        for case in [c for m_ in df.body_nodes(g.node) if isinstance(m_, ast.Match) for c in m_.cases]:
+            ints = [p_.patterns[0].name for p_ in ast.walk(case.pattern) if isinstance(p_, ast.MatchClass) and nospace(p_.cls) == "int" and p_.patterns and isinstance(p_.patterns[0], ast.MatchAs)
+                    and p_.patterns[0].name]
+            if len(ints) < 2:
+                continue
+            for st in case.body:
+                for cmp_ in [x for x in ast.walk(st) if isinstance(x, ast.Compare) and len(x.ops) == 1 and isinstance(x.ops[0], (ast.Eq, ast.NotEq))]:
+                    l, r = cmp_.left, cmp_.comparators[0]
+                    if isinstance(l, ast.Name) and isinstance(r, ast.Name) and {l.id, r.id} <= set(ints) and l.id != r.id:
+                        rep.refuted("index-alias", f"{ci.name}.__getitem__", f"`{nospace(cmp_)}` compares two integer indices as given: a negative and a non-negative index that name the same "
+                                    f"position ({ci.name}[-1, n-1]) compare unequal", detail="raw-compare", locs=[idx.loc(g.module, cmp_)])
+    rep.count("index-alias", proved=n_getitem)
     # ---- 3b. SLICE-ROLE: wherever the stored index objects are materialised (arange(N)[s], s.indices(N)), N is the parent's dimension
     from sa.slicerole import slice_role_obligations
     core = frozenset(idx.core_modules())
